@@ -210,6 +210,23 @@ class Loop:
                 r = r.subst(phi.res, init + step * Poly.atom(T))
         return r
 
+    def exit_value(self, phi_name):
+        """value a header phi holds once the loop is left through its header test: init + step * trip; None if unknown or the
+        loop has another exit"""
+        ivs = self.ivs()
+        if phi_name not in ivs or ivs[phi_name][0] is None:
+            return None
+        if any(b is not self.header for b, _ in self.exits):
+            return None
+        hg = [g for g in self.guards() if g.block is self.header]
+        if len(hg) != 1:
+            return None
+        T_ = self.trip(hg[0])
+        if T_ is None:
+            return None
+        init, step = ivs[phi_name]
+        return init + step * T_
+
     def ptr_at_iteration(self, root, off):
         """pointer (root, off) as (root', off'(t)) with root' loop-invariant"""
         o2 = self.at_iteration(off)
